@@ -212,8 +212,20 @@ static void exec_life(const Plan &p, RunResult &r) {
             if (!L.cloud_imp.empty() && (x & 1)) { delete_gate_bootstrapping_cloud_keyset(L.cloud_imp.back()); L.cloud_imp.pop_back(); }
             else if (!L.secret_imp.empty()) { delete_gate_bootstrapping_secret_keyset(L.secret_imp.back()); L.secret_imp.pop_back(); }
         } else if (k == "params_io") {
-            Obj c; c.kind = K_GBPARAMS; c.p = L.params; c.owned = false; WriteLog log; export_via(c, wc, &log); bool sf = false;
-            Obj b = import_via(c, log.bytes, rc, nullptr, &sf); r.ev.u64(hash_bytes(log.bytes.data(), log.bytes.size())); obj_free(b);
+            // every stand-alone parameter kind: the imported object belongs to the caller (documented: "must be deleted with
+            // delete_X()"), parameter objects it refers to belong to the library's collector, which the teardown finalizes
+            Obj c; c.owned = false;
+            switch (x % 4) {
+                case 0: c.kind = K_GBPARAMS; c.p = L.params; break;
+                case 1: c.kind = K_LWEPARAMS; c.p = (void *) L.params->in_out_params; break;
+                case 2: c.kind = K_TLWEPARAMS; c.p = (void *) L.params->tgsw_params->tlwe_params; break;
+                default: c.kind = K_TGSWPARAMS; c.p = (void *) L.params->tgsw_params; break;
+            }
+            WriteLog log; export_via(c, wc, &log); bool sf = false;
+            Obj b = import_via(c, log.bytes, rc, nullptr, &sf); r.ev.u64(hash_bytes(log.bytes.data(), log.bytes.size()));
+            std::string why; if (b.p && !obj_equal(c, b, &why)) r.v.raise("roundtrip-differs", "C05.fields", "parameter object differs after export/import: " + why, (int) oi);
+            obj_free(b);
+            r.probes.add(fmt("params_io_%s", kind_name(c.kind)));
         } else if (k == "lowkey") {
             // low-level key objects with their own life cycles: a bootstrapping key, its FFT image (a self-contained copy: the
             // constructor copies the key-switching key and converts every row), deleted in either order with uses in between
